@@ -657,7 +657,9 @@ pub fn run(args: &Args) -> Report {
     let mode = args.get("mode").unwrap_or("sweeper").to_string();
     let mut report = Report::new(
         "sweep",
-        if mode == "sweeper" {
+        if mode == "midread" {
+            "value-reading calls (get, get_bytes, range_query, compare_and_swap, json_patch, atomic_increment, insert_if_absent) on values that live on the device only are overtaken between their index lookup and pinning the extent (hook point read.before_pin): the key gets a new generation with a 1 s TTL which is flushed (the old extent is retired) and the clock jumps 5 s, or the key is deleted / replaced and flushed. After the first kind the call must not return, match or patch any value (the generation it meets has expired); after every kind whatever it returns must be a genuine value of that key. distinct = (run, round, kind) of calls whose disturbance was delivered"
+        } else if mode == "sweeper" {
             "background TTL sweeper at 1 ms / sample 64 on memory-only and persistent stores (flush loop, cache on/off); per round 8 keys get a 1 s TTL, the (process-wide virtual) clock jumps to 3 ms before the earliest expiry (all must be visible), four keys are renewed / persisted at the edge, the clock jumps 2 ms past the latest expiry, the others are either probed (must be invisible to get and range) or replaced by new generations while the sweeper — delayed 1.5 ms between sampling and its guarded removal — is working on them; every successfully renewed/replaced key must still be readable afterwards, keys without expiry must never fail a read. distinct = rounds executed"
         } else {
             "workloads where an expiring generation g2 (TTL insert, explicit-timestamp TTL insert, or insert + TTL-only update) supersedes a durable g1, with the device trace recorded; for every cut after g1 became durable, crash images (subsets + tearing) are recovered with TTL enabled and the clock 10 s later: g2 must never be served, and when the key is absent (g2 had won and expired) reopening the repaired file with TTL disabled must not serve g1 again; the same image recovered with TTL disabled tells which generation was newest on the device. non-trivial = images on which the independent reader sees both generations of some key"
@@ -674,6 +676,7 @@ pub fn run(args: &Args) -> Report {
         let f = match mode.as_str() {
             "sweeper" => sweeper_run(&mut report, args.seed, r, &scratch.0),
             "bigretire" => bigretire_run(&mut report, args.seed, r, &scratch.0),
+            "midread" => midread_run(&mut report, args.seed, r, &scratch.0),
             _ => ttlcrash_run(&mut report, args.seed, r, &scratch.0),
         };
         if let Some((sig, msg)) = f {
@@ -685,4 +688,143 @@ pub fn run(args: &Args) -> Report {
     }
     crate::engines::crash::REAPER.wait();
     report
+}
+
+// ------------------------------------------------------------------ midread
+
+thread_local! {
+    static MIDREAD_KEY: std::cell::RefCell<Option<(Vec<u8>, u64)>> = const { std::cell::RefCell::new(None) };
+}
+
+/// While a value-reading call sits between its index lookup and pinning the extent of a value that
+/// lives on the device only (hook point `read.before_pin`), the key is given a new generation with a
+/// 1 s TTL which is flushed (the old extent is retired) and the clock jumps 5 s: what the call finds
+/// when it retries is an *expired* generation, which no value-reading call may return (C11). Also:
+/// the key is deleted / replaced under the call (results must be genuine values or not-found).
+fn midread_run(report: &mut Report, seed: u64, rid: u64, dir: &str) -> Option<(String, String)> {
+    let mut rng = Rng::derive(seed, rid, 0x31d7);
+    let mut cfg = Cfg::disk(16 + 1024);
+    cfg.ttl = true;
+    cfg.cache = rid % 3 == 2;
+    cfg.cpus = 2;
+    let path = format!("{dir}/midread-{rid}.feox");
+    let _ = std::fs::remove_file(&path);
+    let store = Arc::new(storeutil::open(&cfg, Some(&path)).ok()?);
+    let fail = |sig: &str, msg: String| Some((sig.to_string(), msg));
+    let delivered = Arc::new(AtomicU64::new(0));
+    let blocked = Arc::new(AtomicU64::new(0));
+    {
+        let (s, delivered, blocked) = (store.clone(), delivered.clone(), blocked.clone());
+        hub().set_action(Some(Arc::new(move |point: &'static str| {
+            if point != "read.before_pin" {
+                return;
+            }
+            let Some((key, kind)) = MIDREAD_KEY.with(|k| k.borrow_mut().take()) else { return };
+            // the disturbance runs on a helper thread: should the reading call hold a lock the writer
+            // needs, the helper just does not finish in time and the call goes on undisturbed
+            let (tx, rx) = std::sync::mpsc::channel();
+            let s2 = s.clone();
+            std::thread::spawn(move || {
+                match kind {
+                    0 => {
+                        let _ = s2.insert_with_ttl(&key, &values::make(Tag { key_id: kid(&key), writer: 7, seq: 2 }, 77), 1);
+                        let _ = s2.flush();
+                        feoxdb::verif::advance_clock_ns(5 * NS);
+                    }
+                    1 => {
+                        let _ = s2.delete(&key);
+                        let _ = s2.flush();
+                    }
+                    _ => {
+                        let _ = s2.insert(&key, &values::make(Tag { key_id: kid(&key), writer: 7, seq: 3 }, 99));
+                        let _ = s2.flush();
+                    }
+                }
+                let _ = tx.send(());
+            });
+            if rx.recv_timeout(Duration::from_secs(3)).is_ok() {
+                delivered.fetch_add(1, Ordering::SeqCst);
+            } else {
+                blocked.fetch_add(1, Ordering::SeqCst);
+            }
+        })));
+    }
+    let mut failure = None;
+    let ops = ["get", "get_bytes", "range_query", "compare_and_swap", "json_patch", "atomic_increment", "insert_if_absent"];
+    'outer: for round in 0..(ops.len() * 3) as u64 {
+        let op = ops[round as usize % ops.len()];
+        let kind = (round / ops.len() as u64 + rid) % 3;
+        let k = format!("mr-{rid}-{round:02}").into_bytes();
+        // the first generation: durable, on the device only
+        let v1: Vec<u8> = match op {
+            "json_patch" => br#"{"l":[1],"pad":"xxxxxxxxxxxxxxxxxxxxxxxxxxxxxxxx"}"#.to_vec(),
+            "atomic_increment" => 1000i64.to_le_bytes().to_vec(),
+            _ => values::make(Tag { key_id: kid(&k), writer: 0, seq: 1 }, 60 + rng.usize_below(5000)),
+        };
+        if store.insert(&k, &v1).is_err() || store.flush().is_err() {
+            continue;
+        }
+        if store.verif_entry(&k).is_none_or(|e| e.resident) {
+            continue; // value still in memory: the call would not go to the device
+        }
+        let before = delivered.load(Ordering::SeqCst);
+        MIDREAD_KEY.with(|c| *c.borrow_mut() = Some((k.clone(), kind)));
+        let genuine = |v: &[u8]| v == v1.as_slice() || values::check(v).is_ok_and(|t| t.key_id == kid(&k));
+        let outcome: Result<String, String> = match op {
+            "get" => store.get(&k).map(|v| if genuine(&v) { format!("value {}", values::describe(&v)) } else { format!("GARBAGE {}", values::describe(&v)) }).map_err(|e| err_name(&e)),
+            "get_bytes" => store.get_bytes(&k).map(|v| if genuine(&v) { format!("value {}", values::describe(&v)) } else { format!("GARBAGE {}", values::describe(&v)) }).map_err(|e| err_name(&e)),
+            "range_query" => store.range_query(&k, &k, 10).map(|r| match r.first() { Some((_, v)) if genuine(v) => format!("value {}", values::describe(v)), Some((_, v)) => format!("GARBAGE {}", values::describe(v)), None => "empty".to_string() }).map_err(|e| err_name(&e)),
+            "compare_and_swap" => store.compare_and_swap(&k, &v1, b"swapped-in-by-the-probe-swapped-in").map(|b| format!("swapped={b}")).map_err(|e| err_name(&e)),
+            "json_patch" => store.json_patch(&k, br#"[{"op":"add","path":"/l/-","value":2}]"#).map(|_| "patched".to_string()).map_err(|e| err_name(&e)),
+            "atomic_increment" => store.atomic_increment(&k, 5).map(|n| format!("counter={n}")).map_err(|e| err_name(&e)),
+            _ => store.insert_if_absent(&k, b"inserted-because-absent-inserted-because").map(|b| format!("inserted={b}")).map_err(|e| err_name(&e)),
+        };
+        MIDREAD_KEY.with(|c| *c.borrow_mut() = None);
+        let disturbed = delivered.load(Ordering::SeqCst) > before;
+        report.evaluations += 1;
+        if !disturbed {
+            report.count("midread_calls_not_disturbed", 1);
+            continue;
+        }
+        report.count(&format!("midread_disturbed_kind_{kind}"), 1);
+        report.nontrivial.insert(fnv_mix(fnv_mix(rid, round), kind));
+        let text = match &outcome {
+            Ok(s) => s.clone(),
+            Err(e) => format!("Err({e})"),
+        };
+        if text.contains("GARBAGE") {
+            failure = fail("midread:not-genuine", format!("{op}({}) disturbed mid-read (kind {kind}) returned bytes that were never stored under the key: {text}", hex(&k)));
+            break 'outer;
+        }
+        if kind == 0 {
+            // whatever the call meets after the disturbance has expired 4 s ago
+            let bad = match op {
+                "get" | "get_bytes" | "range_query" => text.starts_with("value"),
+                "compare_and_swap" => text == "swapped=true",
+                "json_patch" => text == "patched",
+                "atomic_increment" => outcome.is_ok() && text != "counter=5",
+                _ => false,
+            };
+            if bad {
+                failure = fail(
+                    "midread:expired-generation-served",
+                    format!("{op}({}) was overtaken, between its index lookup and pinning the extent, by a generation with a 1 s TTL that was flushed and had expired 4 s before the call went on; the call answered {text}", hex(&k)),
+                );
+                break 'outer;
+            }
+            if let Ok(v) = store.get(&k) {
+                let fresh = matches!(op, "atomic_increment" | "insert_if_absent") && values::check(&v).is_err();
+                if !fresh {
+                    failure = fail("ttl:visible-after-expiry", format!("get({}) still answers {} after the TTL generation expired", hex(&k), values::describe(&v)));
+                    break 'outer;
+                }
+            }
+        }
+    }
+    hub().set_action(None);
+    report.count("midread_disturbances_delivered", delivered.load(Ordering::SeqCst));
+    report.count("midread_disturbances_blocked", blocked.load(Ordering::SeqCst));
+    drop(store);
+    let _ = std::fs::remove_file(&path);
+    failure
 }
